@@ -4,8 +4,9 @@
 (* (in the reading the code performs today) over the recorded events to know, at every event, which text the       *)
 (* server has analysed, and evaluates Total, WellFormed and Fresh on what was observed.                             *)
 (*                                                                                                                  *)
-(* r  = [id, cfg (the configuration file), disk: <<[f, t]>> (t = "-": no such file), texts: <<[t, lt, imp, entry]>>  *)
-(*       (imp: files the text imports; entry: build entry a configuration text names), events: <<e>>, shownH: <<[f, d]>>, shownF: <<[f, d]>>,            *)
+(* r  = [id, cfg (the configuration file), disk: <<[f, t]>> (t = "-": no such file), texts: <<[t, lt, imp, entry, tests, mlna]>>  *)
+(*       (imp: files the text imports; entry: build entry a configuration text names; tests: the text has `.test' blocks;  *)
+(*        mlna: a statement's value spans lines and one of those lines has a non-ASCII character), events: <<e>>, shownH: <<[f, d]>>, shownF: <<[f, d]>>,            *)
 (*       lastRound: <<f>>]                                                                                           *)
 (* e  = [k \in {"open","change","close","req"}, f, t, kind, line, ch, status \in {"ok","error","dead","timeout"},   *)
 (*       nch, tfirst (didChange: number of entries, first entry), k = "nonfile": a message about a non-file document follows, *)
@@ -26,6 +27,11 @@ EntryOfText(r, t) == r.texts[CHOOSE i \in 1..Len(r.texts) : r.texts[i].t = t].en
 RECURSIVE Reach(_, _, _)
 Reach(r, an, S) == LET N == S \cup UNION {ImpOf(r, an[g]) : g \in S \cap DOMAIN an} IN IF N = S THEN S ELSE Reach(r, an, N)
 InTree(r, s, f) == s.has /\ s.main \in DOMAIN s.an /\ f \in Reach(r, s.an, {s.main})        \* imports followed transitively
+TextRec(r, t) == r.texts[CHOOSE i \in 1..Len(r.texts) : r.texts[i].t = t]
+(* the imports of the analysed tree form a cycle through the entry file *)
+CyclicTree(r, s) == s.has /\ s.main \in DOMAIN s.an /\ \E g \in Reach(r, s.an, {s.main}) \cap DOMAIN s.an : s.main \in ImpOf(r, s.an[g])
+(* some file the text of f imports (transitively) contains tests *)
+ImportsHaveTests(r, disk, b, f) == \E g \in (Reach(r, Eff(disk, b), {f}) \ {f}) \cap DOMAIN disk : TextRec(r, Eff(disk, b)[g]).tests
 OkNow(r, disk, b) == Resolvable(disk, b, r.cfg, LAMBDA t : EntryOfText(r, t))
 MainNow(r, disk, b) == EntryFile(disk, b, r.cfg, LAMBDA t : EntryOfText(r, t))
 (* The reading the fold uses: the deviations that are still open (one record [dev] per line in the file IOEnv.DEVS).  *)
@@ -42,7 +48,10 @@ Step1(r, disk, s, e) ==
     [] e.k = "change" -> LET ts == ChangeText(<<e.tfirst, e.t>>, Coded)
                              b == [s.buf EXCEPT ![e.f] = ts] IN
                          InsertC(s, disk, e.f, ts, e.t, OkNow(r, disk, b), MainNow(r, disk, b), {}, NoDiag, Coded)
+    [] e.k = "nonfile" /\ e.t = "nonutf8" -> IF NonUtf8KillsMsg(e.kind, s.has, Coded) THEN [s EXCEPT !.death = "NonUtf8PathPanics"] ELSE s
     [] e.k = "nonfile" -> IF NonFileKillsMsg(e.kind, s.has, Coded) THEN [s EXCEPT !.death = "NonFileUriPanics"] ELSE s
+    (* a notification (or the initialize request) with parameters that do not deserialize: the death shows at the next request *)
+    [] e.k = "malformed" -> IF MalformedKills(Coded) THEN [s EXCEPT !.death = "MalformedParamsPanic"] ELSE s
     [] e.k = "close" -> LET b == [s.buf EXCEPT ![e.f] = NoText] IN
                         Close(s, disk, e.f, OkNow(r, disk, b), MainNow(r, disk, b), {}, NoDiag, Coded)
     [] e.k = "req" -> IF e.status \in {"dead", "timeout"} THEN Die(s, e.panic)
@@ -55,7 +64,10 @@ BadRanges(r, disk, buf, rs) ==
 
 JudgeReq(r, disk, s, e) ==
   LET known == e.f \in DOMAIN disk
-      pred  == IF known /\ InTree(r, s, e.f) THEN DeathOf(e.kind, LtOf(r, s.an[e.f]), e.line, e.ch, Coded) ELSE ""
+      pred  == IF e.kind = "malformed" THEN (IF MalformedKills(Coded) THEN "MalformedParamsPanic" ELSE "")
+               ELSE IF e.kind = "unknown" THEN (IF UnknownUnanswered(Coded) THEN "UnknownRequestNeverAnswered" ELSE "")
+               ELSE IF CycleKills(e.kind, s.has, CyclicTree(r, s), Coded) THEN "WorkspaceSymbolRecursesImports"
+               ELSE IF known /\ InTree(r, s, e.f) THEN DeathOf(e.kind, LtOf(r, s.an[e.f]), e.line, e.ch, Coded) ELSE ""
       where == e.kind \o " at " \o ToString(e.line) \o ":" \o ToString(e.ch) \o " in " \o e.f
       total == IF e.status \in {"ok", "error"}
                  THEN IF s.death # "" THEN <<V(r.id, "drift", s.death, "model predicts that the previous message killed the server, it answered: " \o where)>>
@@ -65,11 +77,15 @@ JudgeReq(r, disk, s, e) ==
                ELSE <<V(r.id, "violation", "", "Total: request not answered (" \o e.status \o " " \o e.panic \o "): " \o where)>>
       br    == IF e.status = "ok" THEN BadRanges(r, disk, s.cli, e.ranges) ELSE {}
       wf1   == IF br = {} THEN <<>>
+               ELSE IF e.kind = "codeLens" /\ known /\ LensesMayBeIllFormed(ImportsHaveTests(r, disk, s.cli, e.f), Coded)
+                 THEN <<V(r.id, "deviation", "CodeLensOfImportedTests", "codeLens of " \o e.f \o " answers with positions of the files it imports")>>
                ELSE IF LagWitness(s) THEN <<V(r.id, "deviation", "DidChangeFirstEntryWins", "range outside the client's document after a didChange with several entries: " \o where)>>
                ELSE IF CloseWitness(s) THEN <<V(r.id, "deviation", "CloseDoesNotReanalyse", "range outside the document after didClose: " \o where)>>
                ELSE <<V(r.id, "violation", "", "WellFormed: returned range outside its document: " \o where \o " " \o ToString(e.ranges[CHOOSE i \in br : TRUE]))>>
       wf2   == IF e.status = "ok" /\ e.hasToks /\ known /\ ~TokensOK(LtOf(r, Eff(disk, s.cli)[e.f]), e.toks)
-                 THEN IF LagWitness(s) THEN <<V(r.id, "deviation", "DidChangeFirstEntryWins", "semantic tokens of another text than the client's")>>
+                 THEN IF TokensMayBeIllFormed(TextRec(r, Eff(disk, s.cli)[e.f]).mlna, Coded)
+                        THEN <<V(r.id, "deviation", "SemanticTokenPastEndOfLine", "a semantic token of " \o e.f \o " ends behind its line")>>
+                      ELSE IF LagWitness(s) THEN <<V(r.id, "deviation", "DidChangeFirstEntryWins", "semantic tokens of another text than the client's")>>
                       ELSE IF CloseWitness(s) THEN <<V(r.id, "deviation", "CloseDoesNotReanalyse", "semantic tokens of a closed buffer")>>
                       ELSE <<V(r.id, "violation", "", "WellFormed: semantic tokens unsorted, overlapping, empty or outside their line in " \o e.f)>>
                ELSE <<>>
